@@ -337,3 +337,28 @@ def _cw1_prop(pid, idx, clauses, proj, text):
         "run": mk_cw1_run(idx, clauses, proj), "assumptions": CW1_ASSUME, "level_text": text,
         "design_ref": "DESIGN.md section 6 " + pid,
     }
+
+
+PROPS["C07"] = _cw1_prop("C07", 0, C07_CLAUSES, "acceptance and relayed messages",
+    "Axiom-free Coq theorems over the transliterated cw1-whitelist / cw1-subkeys handlers, for every state, block, sender and "
+    "message list: an accepted Execute relays exactly the submitted messages in order and no other call emits any; whitelist "
+    "accepts exactly admins; subkeys accepts exactly admins or lists whose every message is covered with the allowance "
+    "threaded through cumulatively; a failed call (handler error or a relayed message failing) changes nothing. Tie to the "
+    "Rust: generated histories on both real proxies, S_C07 evaluated in Coq on every implementation step (relayed SubMsg "
+    "vector compared with the submitted one by Rust == and kind-by-kind) plus model/implementation equality (measured).")
+PROPS["C08"] = _cw1_prop("C08", 1, C08_CLAUSES, "stored allowances",
+    "Axiom-free Coq theorems: an accepted subkey Execute deducts every coin of every bank send exactly, per denomination and "
+    "cumulatively, only from a stored unexpired allowance, and touches nobody else's; increase/decrease act only by admins "
+    "on the named subkey (expired allowance restarts from zero, decrease saturates); over every history from every "
+    "instantiation spent + remaining <= granted per subkey and denomination (ghost sums, induction). Tie to the Rust: S_C08 "
+    "on every implementation step + equality of the stored allowance tables (measured).")
+PROPS["C16"] = _cw1_prop("C16", 2, C16_CLAUSES, "CanExecute answer vs acceptance of the following Execute",
+    "Axiom-free Coq theorem for EVERY state of either proxy, block, sender and message: can_execute = acceptance of "
+    "Execute{[m]} by that sender in that state (two separately transliterated functions proved equal). Tie to the Rust: "
+    "every generated Execute of a single message is preceded by the CanExecute query in the same state; the two answers of "
+    "the implementation are compared (S_C16) and each with the model's (measured).")
+PROPS["C17"] = _cw1_prop("C17", 3, C17_CLAUSES, "admin list, frozen flag, allowances and permissions",
+    "Axiom-free Coq theorems: admin list / frozen flag change only in Freeze or UpdateAdmins by a current admin while "
+    "mutable; once immutable they never change over any history (induction); allowances and permissions are altered only by "
+    "current admins, except a subkey's own accepted spending of its own allowance. Tie to the Rust: S_C17 on every "
+    "implementation step of histories on both proxies + equality of admin list/flag/permissions (measured).")
